@@ -37,7 +37,8 @@ CONSTANTS Sessions,      \* session names (strings)
           Acts,          \* names of the actions this configuration explores
           StoreArgs,     \* set of [op, F, silent, asuid] records tried by STORE
           ConnFlagSets,  \* flag sets the connector may set
-          Record         \* TRUE: keep the behaviour in hist (simulation)
+          Record,        \* TRUE: keep the behaviour in hist (simulation)
+          Script         \* <<>> or a sequence of [act, s, args]: the free phase follows exactly this schedule
 
 None == "none"
 Unknown == {"?"}
@@ -647,6 +648,21 @@ CF_None == {{}}
 CF_Seen == {{}, {"Seen"}}
 CF_All == SUBSET SharedFlags
 
+NoScript == <<>>
+Sc(a, s, args) == [act |-> a, s |-> s, args |-> args]
+\* F13: an own APPEND is applied before the older queued EXISTS of another session's APPEND;
+\* the client learned sequence 1 = UID 2, after the flush sequence 1 is UID 1
+ScriptF13 == <<
+  Sc("Select", "s1", <<"A">>), Sc("Select", "s2", <<"A">>),
+  Sc("Append", "s1", <<"A", "m1", 1>>), Sc("Append", "s2", <<"A", "m2", 2>>),
+  Sc("Fetch", "s2", <<>>), Sc("Deliver", "s2", <<"Exists", TRUE>>), Sc("Noop", "s2", <<>>) >>
+\* F14: s2 sets \Seen (queued to s1); s1 removes \Seen before applying it; the queued "add" lands afterwards
+ScriptF14 == <<
+  Sc("Select", "s1", <<"A">>), Sc("Append", "s1", <<"A", "m1", 1>>), Sc("Select", "s2", <<"A">>),
+  Sc("Store", "s2", <<<<1>>, "add", <<"Seen">>, FALSE, FALSE>>),
+  Sc("Store", "s1", <<<<1>>, "rem", <<"Seen">>, FALSE, FALSE>>),
+  Sc("Deliver", "s1", <<"Flags", TRUE>>), Sc("Noop", "s1", <<>>) >>
+
 -----------------------------------------------------------------------------
 (* Next-state relation: the configuration chooses the actions (Acts)          *)
 Free ==
@@ -701,7 +717,13 @@ StepRecord ==
 Keep == IF Record THEN hist' = Append(hist, StepRecord) ELSE hist' = hist
 
 Next == Free /\ Keep
-SimNext == ((steps < MaxSteps /\ Free) \/ (steps >= MaxSteps /\ Drain)) /\ Keep
+
+\* a scripted behaviour takes, at each step, the one Free step that is the scripted one
+PhaseLen == IF Script # <<>> THEN Len(Script) ELSE MaxSteps
+Scripted ==
+  Script # <<>> =>
+     LET sc == Script[steps + 1] IN last'.act = sc.act /\ last'.s = sc.s /\ last'.args = sc.args
+SimNext == ((steps < PhaseLen /\ Free /\ Scripted) \/ (steps >= PhaseLen /\ Drain)) /\ Keep
 
 Spec == Init /\ [][Next]_vars
 
@@ -710,9 +732,9 @@ Bound == \A s \in Sessions : Len(res[s]) <= MaxRes /\ Len(q[s]) <= MaxQ
 
 \* simulation: print the behaviour once it is quiescent after the free phase (used as an "invariant")
 EmitBehaviour ==
-  (Record /\ steps >= MaxSteps /\ Quiescent) => PrintT(ToJson([trace |-> hist]))
+  (Record /\ steps >= PhaseLen /\ Quiescent) => PrintT(ToJson([trace |-> hist]))
 \* ... and stop this behaviour there
-SimDone == ~(Record /\ steps >= MaxSteps /\ Quiescent)
+SimDone == ~(Record /\ steps >= PhaseLen /\ Quiescent)
 
 -----------------------------------------------------------------------------
 (* Properties                                                                 *)
@@ -758,6 +780,17 @@ Converges ==
 
 \* the intended design has no deviation at all
 NoTaint == \A s \in Sessions : taint[s] = {}
+
+\* witness goals for the known deviations: violated exactly when the deviation has produced a visible
+\* divergence at global quiescence; TLC's shortest counterexample is the schedule replayed on the real code
+DivergedAtQuiescence(s) == sel[s] # None /\ snap[s] # DbView(sel[s])
+MirrorBroken(s) ==
+  sel[s] # None /\ (Len(mirror[s]) # Len(snap[s])
+     \/ \E i \in 1..Len(mirror[s]) : i <= Len(snap[s]) /\
+          ((mirror[s][i].uid # 0 /\ mirror[s][i].uid # snap[s][i].uid)
+           \/ (mirror[s][i].f # Unknown /\ mirror[s][i].f # snap[s][i].f)))
+WitnessF13 == ~(Quiescent /\ \E s \in Sessions : "F13" \in taint[s] /\ MirrorBroken(s))
+WitnessF14 == ~(Quiescent /\ \E s \in Sessions : "F14" \in taint[s] /\ DivergedAtQuiescence(s))
 
 \* C04
 UidNextMonotone == [][\A b \in Boxes : uidNext'[b] >= uidNext[b]]_vars
